@@ -8,8 +8,13 @@ import (
 	"io"
 	"os"
 	"os/exec"
+	"runtime"
+	"runtime/debug"
 	"strconv"
 	"strings"
+	"sync"
+	"sync/atomic"
+	"syscall"
 	"time"
 
 	"github.com/tormoder/fit/dyncrc16"
@@ -29,7 +34,7 @@ func registerC14() {
 			"(length 0..5000) x PRNG write partitions, compared with the reference (each part written through Write, io.WriteString / WriteString, WriteByte if offered, io.Copy from strings and bytes readers, or a bufio.Writer), also fed through io.Copy / io.CopyN from short-reading and data-with-EOF readers, Reset, residue and Sum(nil); distinct by string digest; family long-writes: for each of the " +
 			"65536 register states s and block offsets 0/4/8/.../28 one single Write of >= 64 bytes that drives the register to s and then feeds it s itself followed by zero bytes " +
 			"(the input on which multi-byte-at-a-time and zero-skipping implementations go wrong), compared with the reference and with a byte-wise feed; family lengths: single writes of 30 KB - 2.3 MB (and a few of 4 - 33 MiB) (from zero and non-zero starting states, workers with GOMAXPROCS=4) whose length (and whose halves, thirds, " +
-			"quarters and eighths) sit at and around multiples of 32767 - the order of x modulo the CRC polynomial, where implementations that split a write and combine partial sums wrap - plus PRNG long lengths, from PRNG starting states; plus the same monitor (checksum, split writes, residue, Reset, every register state) built for GOOS=js GOARCH=wasm and run by node when the host has one",
+			"quarters and eighths) sit at and around multiples of 32767 - the order of x modulo the CRC polynomial, where implementations that split a write and combine partial sums wrap - plus PRNG long lengths, from PRNG starting states; family shared-input: one byte string of 64 KB - 1 MB (and short ones of 64 - 300 bytes) that lies in memory mapped read-only is written to hashes in non-zero states (a store into the input faults and is reported), and eight goroutines, each with a hash of its own in a state of its own, write one shared slice at the same time, several rounds: every sum must be the reference value for prefix + shared bytes, and the shared bytes must be unchanged afterwards; plus the same monitor (checksum, split writes, residue, Reset, every register state) built for GOOS=js GOARCH=wasm and run by node when the host has one",
 		Assume:        []string{"the bit-serial reference CRC-16/ARC (12 lines, checked against the catalogue check value 0xBB3D) is the specification"},
 		MinNontrivial: 1 << 24,
 		Families386:   []string{"streaming", "lengths"},
@@ -39,6 +44,7 @@ func registerC14() {
 			{Name: "streaming", N: func(t string) uint64 { return tierN(t, 20000, 2000000) }, Run: c14Streaming},
 			{Name: "long-writes", N: func(string) uint64 { return 256 }, Run: c14LongWrites},
 			{Name: "lengths", N: func(t string) uint64 { return tierN(t, 260, 2600) }, Run: c14Lengths},
+			{Name: "shared-input", N: func(t string) uint64 { return tierN(t, 48, 960) }, Run: c14Shared},
 		},
 		Exhaustive: func(string) bool { return true },
 		Main:       c14Wasm,
@@ -328,6 +334,118 @@ func c14LongWrites(c *lib.Ctx, idx uint64) {
 }
 
 // c14Lengths: long single writes at lengths where split-and-combine implementations wrap.
+// c14Shared: see the rule text. The sum of a byte sequence does not depend on where the bytes
+// live or on who else reads them.
+func c14Shared(c *lib.Ctx, idx uint64) {
+	rng := lib.NewRand("C14.shared", idx)
+	n := 65536 + rng.Intn(1<<20-65536)
+	if idx%4 == 3 {
+		n = 64 + rng.Intn(237)
+	}
+	body := rng.Bytes(n)
+	orig := append([]byte{}, body...)
+	c.SetInflight(body[:minInt(n, 64)])
+	crcFrom := func(st uint16, d []byte) uint16 {
+		for _, b := range d {
+			st = ref.CRCUpdate(st, b)
+		}
+		return st
+	}
+	// 1. the input in read-only memory
+	if m, err := syscall.Mmap(-1, 0, (n+4095)&^4095, syscall.PROT_READ|syscall.PROT_WRITE, syscall.MAP_ANON|syscall.MAP_PRIVATE); err == nil {
+		copy(m, body)
+		if syscall.Mprotect(m, syscall.PROT_READ) == nil {
+			ro := m[:n]
+			for k := 0; k < 3; k++ {
+				pre := rng.Bytes(1 + rng.Intn(3))
+				pre[0] |= 1
+				var got uint16
+				split := rng.Intn(n)
+				o := lib.Guard(func() {
+					old := debug.SetPanicOnFault(true)
+					defer debug.SetPanicOnFault(old)
+					h := dyncrc16.New()
+					h.Write(pre)
+					if k == 2 {
+						h.Write(ro[:split])
+						h.Write(ro[split:])
+					} else {
+						h.Write(ro)
+					}
+					got = h.Sum16()
+				})
+				c.Eval()
+				if o.Panicked {
+					c.Violation(orig[:minInt(n, 4096)], "Write of %d bytes that lie in read-only memory, on a hash in a non-zero state, faulted: %s (a Write must not store into its input, even temporarily)", n, o.Panic)
+					syscall.Munmap(m)
+					return
+				}
+				if want := crcFrom(ref.CRC(pre), orig); got != want {
+					c.Violation(orig[:minInt(n, 4096)], "Write of %d bytes from read-only memory after a %d-byte write: got %#04x, CRC-16/ARC gives %#04x", n, len(pre), got, want)
+					syscall.Munmap(m)
+					return
+				}
+				c.Count("writes_from_read_only_memory", 1)
+			}
+		}
+		syscall.Munmap(m)
+	} else {
+		c.Count("read_only_mapping_not_possible", 1)
+	}
+	// 2. one shared slice, eight hashes in eight goroutines
+	const G = 8
+	rounds := 6
+	pres := make([][]byte, G)
+	wants := make([]uint16, G)
+	for g := range pres {
+		pres[g] = rng.Bytes(1 + rng.Intn(4))
+		pres[g][0] |= 1
+		wants[g] = crcFrom(ref.CRC(pres[g]), orig)
+	}
+	var wg sync.WaitGroup
+	var bad int32
+	var first atomic.Value
+	var goFlag int32
+	for g := 0; g < G; g++ {
+		wg.Add(1)
+		go func(g int) {
+			defer wg.Done()
+			for atomic.LoadInt32(&goFlag) == 0 {
+				runtime.Gosched()
+			}
+			for r := 0; r < rounds; r++ {
+				h := dyncrc16.New()
+				h.Write(pres[g])
+				if (g+r)%3 == 2 {
+					k := (g*7919 + r*104729) % n
+					h.Write(body[:k])
+					h.Write(body[k:])
+				} else {
+					h.Write(body)
+				}
+				if got := h.Sum16(); got != wants[g] {
+					if atomic.AddInt32(&bad, 1) == 1 {
+						first.Store(fmt.Sprintf("goroutine %d round %d: got %#04x, CRC-16/ARC of its prefix and the shared bytes is %#04x", g, r, got, wants[g]))
+					}
+				}
+			}
+		}(g)
+	}
+	atomic.StoreInt32(&goFlag, 1)
+	wg.Wait()
+	c.EvalN(int64(G * rounds))
+	if bad > 0 {
+		c.Violation(orig[:minInt(n, 4096)], "%d of %d sums wrong when %d goroutines, each with a hash of its own, wrote one shared slice of %d bytes at the same time; %s", bad, G*rounds, G, n, first.Load())
+		return
+	}
+	if !bytes.Equal(body, orig) {
+		c.Violation(orig[:minInt(n, 4096)], "the shared input of %d bytes was changed by Write calls that only read it", n)
+		return
+	}
+	c.Count("concurrent_writes_of_one_shared_slice", int64(G*rounds))
+	c.Nontrivial([]byte("shared"), []byte(fmt.Sprint(n, idx)))
+}
+
 func c14Lengths(c *lib.Ctx, idx uint64) {
 	rng := lib.NewRand("C14.lengths", idx)
 	var n int
